@@ -238,6 +238,44 @@ func init() {
 			return i.mkSym(i.ex.Ctx.App("uf_"+sanitize(argString(a[0])), smt.FP64, i.term(a[1])), types.Float64)
 		},
 		"verif_thorough": func(fr *frame, a []value) value { return fr.i.ex.Tier == "thorough" },
+		// verif_closure_set_int(fn, name, v): sets the integer variable `name`
+		// captured by the closure fn to v (converted to the variable's own
+		// width), so that one step can be checked from an arbitrary state of a
+		// counter no caller can reach; false if fn captures no such variable.
+		"verif_closure_set_int": func(fr *frame, a []value) value {
+			fv := a[0]
+			if it, ok := fv.(iface); ok {
+				fv = it.v
+			}
+			cl, ok := fv.(*closure)
+			if !ok {
+				return false
+			}
+			name := argString(a[1])
+			for k, v := range cl.Fn.FreeVars {
+				if v.Name() != name || k >= len(cl.Env) {
+					continue
+				}
+				cell, ok := cl.Env[k].(*value)
+				if !ok || cell == nil {
+					return false
+				}
+				kind, isBasic := kindOf(*cell)
+				if !isBasic {
+					return false
+				}
+				if _, _, isInt := kindInfo(kind); !isInt {
+					return false
+				}
+				if sv, isSym := a[2].(sym); isSym {
+					*cell = fr.i.symConv(kind, sv)
+				} else {
+					*cell = concreteOfKind(kind, uint64(asInt64(a[2])))
+				}
+				return true
+			}
+			return false
+		},
 		// verif_alloc_limit(n): from now on the make() calls of this path may
 		// allocate n slice elements in total; exceeding it is a violation
 		"verif_alloc_limit": func(fr *frame, a []value) value {
